@@ -782,6 +782,8 @@ class Sym:
           ('and', [..]) ('or', [..])  (children sorted)
         """
         at = self._node_id(e, at)
+        if isinstance(e, ast.Constant) and isinstance(e.value, bool):
+            return ("truthy", "True", e.value != neg)        # a literal flag (e.g. a helper's boolean parameter bound at the call)
         if isinstance(e, ast.UnaryOp) and isinstance(e.op, ast.Not):
             return self.cmp(e.operand, at, depth + 1, not neg)
         if isinstance(e, ast.BoolOp):
